@@ -350,7 +350,7 @@ func (c *concatoCase) runGomini(named bool, n int, yield bool) (answers [][]*ct,
 			switch {
 			case nd == nil:
 				return &ct{k: "nil"}
-			case depth > 60:
+			case depth > 100000: // answers of an infinite search can be long lists; only a cyclic value would get here
 				return &ct{k: "str", s: "<too deep>"}
 			case nd.Value == nil || nd.Value == nodeMarker:
 				return name(reflect.ValueOf(nd).Pointer()) // the placeholder of an unbound list variable
